@@ -21,6 +21,8 @@ ELEMS = {
     "push": (PUSH(S("a")), "Push<Str<Sa>>"),
     # an element that touches the stack and then fails ("a" pushed, "b" missing): only the enclosing repetition / option restores
     "pushb": (CALL("pb"), "(Push<Str<Sa>>, Str<Sb>)"),
+    # pops an entry pushed before the repetition, pushes another text, then fails: the restore must bring the old entry back
+    "swap": (CALL("sw"), "(DROP, (Push<Str<Sb>>, Str<Sc>))"),
 }
 
 
@@ -44,7 +46,7 @@ def cells(tier):
     if tier == "quick":
         keep = []
         for i, c in enumerate(out):
-            if c["kind"] != "minmax" or c["ek"] in ("str", "pop", "pushb") or (c["mn"] + 2 * c["mx"] + c["skip"]) % 3 == 0:
+            if c["kind"] != "minmax" or c["ek"] in ("str", "pop", "pushb", "swap") or (c["mn"] + 2 * c["mx"] + c["skip"]) % 3 == 0:
                 keep.append(c)
         out = keep
     for i, c in enumerate(out):
@@ -77,12 +79,13 @@ def model_and_type(c):
 
 def build(tier):
     cs = cells(tier)
-    rules = [{"name": "WHITESPACE", "ty": "silent", "expr": S(" ")}, {"name": "pb", "ty": "atomic", "expr": SEQ(PUSH(S("a")), S("b"))}]
+    rules = [{"name": "WHITESPACE", "ty": "silent", "expr": S(" ")}, {"name": "pb", "ty": "atomic", "expr": SEQ(PUSH(S("a")), S("b"))},
+             {"name": "sw", "ty": "atomic", "expr": SEQ(CALL("DROP"), PUSH(S("b")), S("c"))}]
     arms = []
     for c in cs:
         cell, ty, cnt = model_and_type(c)
         sk = c["skip"]
-        stacky = c["ek"] in ("pop", "drop")
+        stacky = c["ek"] in ("pop", "drop", "swap")
         if stacky:
             # PUSH("a"){,3} ~ ";" ~ cell   with the same SKIP everywhere, exactly the generated shape
             body = SEQ(REP(PUSH(S("a")), 0, 3), S(";"), cell)
@@ -121,6 +124,7 @@ macro_rules! sw {
 sw!(Sa, "a");
 sw!(Sbc, "bc");
 sw!(Sb, "b");
+sw!(Sc, "c");
 sw!(Ssp, " ");
 sw!(Ssemi, ";");
 type Ws<'i> = AtomicRepeat<Str<Ssp>>;
